@@ -21,11 +21,11 @@ RULE = ("part 'faults': ProgGen programs (no failing serializers) run single-thr
 ASSUMPTIONS = ["programs are well-formed: no logging into finished actions, each serialized id continued once",
                "emission order is compared with position order on first use (allocation), since a remote child's messages "
                "are legitimately emitted after the reservation"]
-BATCH = 10
+BATCH = 100
 
 
 def plan(tier, seed):
-    n = 3000 if tier == "quick" else 60000
+    n = 20000 if tier == "quick" else 200000
     specs = [{"part": "faults", "seed": seed, "lo": i, "hi": min(n, i + BATCH), "tier": tier} for i in range(0, n, BATCH)]
     try:
         from vf import conc
